@@ -79,6 +79,12 @@ type tcase struct {
 	OurRsv  []int  `json:"our_rsv"`
 	OurPid  []int  `json:"our_pid"`
 	WaitSec int    `json:"wait_sec"`
+	// case "chs": handshakes of several connections in flight at the same time
+	Conns []tcase `json:"conns"`
+	Sched []struct {
+		Op string `json:"op"` // "b": the call of connection C runs until its handshake Write is pending, "f": the transport takes the bytes
+		C  int    `json:"c"`
+	} `json:"sched"`
 }
 
 type headsLine struct {
@@ -396,15 +402,25 @@ func (c *capConn) SetReadDeadline(t time.Time) error  { return nil }
 func (c *capConn) SetWriteDeadline(t time.Time) error { return nil }
 
 // feedConn: Read returns the scripted chunks (never more than one chunk per call), then EOF; Writes are captured.
+// A negative chunk is TIME: the transport stays silent until the read deadline that the reader has armed expires
+// (the Read call returns a net.Error with Timeout() = true and no bytes), after which the data continues.
 type feedConn struct {
-	mu     sync.Mutex
-	data   []byte
-	chunks []int
-	pos    int
-	ci     int
-	left   int
-	wrote  []byte
+	mu       sync.Mutex
+	data     []byte
+	chunks   []int
+	pos      int
+	ci       int
+	left     int
+	wrote    []byte
+	deadline bool // a read deadline is armed
+	ntout    int  // expired deadlines delivered
 }
+
+type timeoutErr struct{}
+
+func (timeoutErr) Error() string   { return "i/o timeout (scripted)" }
+func (timeoutErr) Timeout() bool   { return true }
+func (timeoutErr) Temporary() bool { return true }
 
 func (c *feedConn) Read(b []byte) (int, error) {
 	c.mu.Lock()
@@ -419,6 +435,14 @@ func (c *feedConn) Read(b []byte) (int, error) {
 				break
 			}
 			return 0, io.EOF
+		}
+		if c.chunks[c.ci] < 0 {
+			c.ci++
+			if c.deadline { // silence lasts until the armed deadline; without a deadline the read would simply wait it out
+				c.ntout++
+				return 0, timeoutErr{}
+			}
+			continue
 		}
 		c.left = c.chunks[c.ci]
 		c.ci++
@@ -444,11 +468,18 @@ func (c *feedConn) Write(b []byte) (int, error) {
 	c.mu.Unlock()
 	return len(b), nil
 }
-func (c *feedConn) Close() error                       { return nil }
-func (c *feedConn) LocalAddr() net.Addr                { return addr{} }
-func (c *feedConn) RemoteAddr() net.Addr               { return addr{} }
-func (c *feedConn) SetDeadline(t time.Time) error      { return nil }
-func (c *feedConn) SetReadDeadline(t time.Time) error  { return nil }
+func (c *feedConn) Close() error         { return nil }
+func (c *feedConn) LocalAddr() net.Addr  { return addr{} }
+func (c *feedConn) RemoteAddr() net.Addr { return addr{} }
+func (c *feedConn) SetDeadline(t time.Time) error {
+	return c.SetReadDeadline(t)
+}
+func (c *feedConn) SetReadDeadline(t time.Time) error {
+	c.mu.Lock()
+	c.deadline = !t.IsZero()
+	c.mu.Unlock()
+	return nil
+}
 func (c *feedConn) SetWriteDeadline(t time.Time) error { return nil }
 
 // ---------------------------------------------------------------------------------------------- framing (length prefix only)
@@ -657,6 +688,118 @@ func chunking(mode string, seed int64, bounds []int, total int) []int {
 	return out
 }
 
+// span of one message in the fed stream
+type span struct {
+	start, hlen, end int // frame = data[start:end], head = data[start:start+hlen]
+	block            bool
+}
+
+// tout describes one expired deadline of a schedule by arithmetic on the INPUT layout only: the message (1-based)
+// inside which the stream stands, whether that is inside the body of a block behind its complete head, and the
+// number of body bytes of that block handed over since the previous expiry (or since the body began).
+func describeTouts(chunks []int, spans []span) []ev {
+	out := []ev{}
+	pos, last := 0, -1
+	for _, k := range chunks {
+		if k >= 0 {
+			pos += k
+			continue
+		}
+		e := ev{"mi": 0, "body": 0, "since": 0, "pos": pos}
+		for i, sp := range spans {
+			if pos > sp.start && pos < sp.end {
+				e["mi"] = i + 1
+				if sp.block && pos >= sp.start+sp.hlen {
+					from := sp.start + sp.hlen
+					if last > from {
+						from = last
+					}
+					e["body"], e["since"] = 1, pos-from
+				}
+			}
+		}
+		last = pos
+		out = append(out, e)
+	}
+	return out
+}
+
+func endsOf(spans []span) []int {
+	out := []int{}
+	for _, sp := range spans {
+		out = append(out, sp.end)
+	}
+	return out
+}
+
+// split [from, to) into 1..3 random chunks
+func splitRand(rng *rand.Rand, out []int, from, to int) []int {
+	for from < to {
+		k := to - from
+		if rng.Intn(3) > 0 {
+			k = 1 + rng.Intn(k)
+		}
+		out = append(out, k)
+		from += k
+	}
+	return out
+}
+
+// slowChunking: a slow peer.  mode "slow": every block with a body of >= 3 bytes arrives in 2..5 bursts separated
+// by silences that outlast the reader's piece timeout, each after at least one fresh body byte (the reader has to keep
+// the connection and the position).  mode "slowx": additionally one silence at an arbitrary stream position (the reader
+// may have to give up there; what it delivered before must still be exact).
+func slowChunking(mode string, seed int64, spans []span, total int) []int {
+	rng := rand.New(rand.NewSource(seed))
+	var tps []int
+	for _, sp := range spans {
+		body := sp.end - sp.start - sp.hlen
+		if !sp.block || body < 3 {
+			continue
+		}
+		n := 2 + rng.Intn(3)
+		if rng.Intn(6) == 0 {
+			n = 1
+		}
+		if n > body-1 {
+			n = body - 1
+		}
+		seen := map[int]bool{}
+		for len(seen) < n {
+			var o int
+			switch rng.Intn(4) {
+			case 0:
+				o = 1 + rng.Intn(min(body-1, 8)) // right behind the head
+			case 1:
+				o = body - 1 - rng.Intn(min(body-1, 8)) // right before the end
+			default:
+				o = 1 + rng.Intn(body-1)
+			}
+			if !seen[o] {
+				seen[o] = true
+				tps = append(tps, sp.start+sp.hlen+o)
+			}
+		}
+	}
+	if mode == "slowx" && total > 0 {
+		x := rng.Intn(total + 1)
+		if rng.Intn(2) == 0 && len(spans) > 0 { // on a message boundary or inside a head: the reader has to give up there
+			sp := spans[rng.Intn(len(spans))]
+			x = sp.start + rng.Intn(sp.hlen+1)
+		}
+		tps = append(tps, x)
+	}
+	sort.Ints(tps)
+	var out []int
+	pos := 0
+	for _, tp := range tps {
+		out = splitRand(rng, out, pos, tp)
+		out = append(out, -1)
+		pos = tp
+	}
+	return splitRand(rng, out, pos, total)
+}
+
 func arr20(a []int) (out [20]byte) { copy(out[:], bytesOf(a)); return }
 func arr8(a []int) (out [8]byte)   { copy(out[:], bytesOf(a)); return }
 
@@ -664,6 +807,7 @@ func arr8(a []int) (out [8]byte)   { copy(out[:], bytesOf(a)); return }
 func (d *drv) readerCase(c *tcase) error {
 	var data []byte
 	var bounds []int
+	var spans []span
 	exp := []ev{}
 	for i := range c.Msgs {
 		m := &c.Msgs[i]
@@ -677,9 +821,16 @@ func (d *drv) readerCase(c *tcase) error {
 		if payloadKinds[m.K] {
 			data = append(data, m.payload()...)
 		}
+		spans = append(spans, span{bounds[i], len(h), len(data), m.K == "piece"})
 		exp = append(exp, m.describe())
 	}
-	conn := &feedConn{data: data, chunks: chunking(c.Chunk, c.Cseed, bounds, len(data))}
+	var chunks []int
+	if c.Chunk == "slow" || c.Chunk == "slowx" {
+		chunks = slowChunking(c.Chunk, c.Cseed, spans, len(data))
+	} else {
+		chunks = chunking(c.Chunk, c.Cseed, bounds, len(data))
+	}
+	conn := &feedConn{data: data, chunks: chunks}
 	got := []ev{}
 	errs := ""
 	if c.Hs {
@@ -719,7 +870,116 @@ func (d *drv) readerCase(c *tcase) error {
 		}
 		t.Stop()
 	}
-	d.emit(ev{"op": "Read", "hs": c.Hs, "chunk": c.Chunk, "nbytes": len(data), "exp": exp, "got": got, "err": errs})
+	d.emit(ev{"op": "Read", "hs": c.Hs, "chunk": c.Chunk, "nbytes": len(data), "exp": exp, "got": got, "err": errs,
+		"touts": describeTouts(chunks, spans), "ntout": conn.ntout, "ends": endsOf(spans)})
+	return nil
+}
+
+// gateConn is a BLOCKING transport: the first Write stays pending (the caller's buffer is not looked at) until the
+// scheduler lets the transport take the bytes - what a socket with a full send buffer does.  The io.Writer contract
+// leaves the buffer with the caller until Write returns; a caller that shares it with other connections shows here.
+type gateConn struct {
+	*feedConn
+	entered chan struct{}
+	release chan struct{}
+	once    sync.Once
+}
+
+func (g *gateConn) Write(b []byte) (int, error) {
+	first := false
+	g.once.Do(func() { first = true })
+	if first {
+		close(g.entered)
+		<-g.release
+	}
+	return g.feedConn.Write(b)
+}
+
+// several btconn.Accept calls in flight at once, interleaved as the TLC-generated schedule (MC_WireConc) says
+func (d *drv) concHandshakeCase(c *tcase) error {
+	type cst struct {
+		conn  *gateConn
+		exp   ev
+		done  chan struct{}
+		got   []ev
+		errs  string
+		built bool
+	}
+	n := len(c.Conns)
+	st := make([]*cst, n)
+	order := ""
+	for i := range c.Conns {
+		cc := &c.Conns[i]
+		m := &cc.Msgs[0]
+		hs, ok := d.heads[m.Gi]
+		if !ok || len(hs) == 0 {
+			return fmt.Errorf("no TLC encoding for message %d", m.Gi)
+		}
+		data := bytesOf(hs[0])
+		st[i] = &cst{conn: &gateConn{feedConn: &feedConn{data: data, chunks: chunking(cc.Chunk, cc.Cseed, []int{0}, len(data))},
+			entered: make(chan struct{}), release: make(chan struct{})}, exp: m.describe(), done: make(chan struct{})}
+	}
+	for _, step := range c.Sched {
+		if step.C < 1 || step.C > n {
+			return fmt.Errorf("schedule names connection %d of %d", step.C, n)
+		}
+		x, cc := st[step.C-1], &c.Conns[step.C-1]
+		order += fmt.Sprintf("%s%d", step.Op, step.C)
+		switch step.Op {
+		case "b":
+			x.built = true
+			go func() {
+				defer close(x.done)
+				_, _, peerExt, peerID, ih, err := btconn.Accept(x.conn, time.Minute, nil, false, func([20]byte) bool { return true },
+					arr8(cc.OurRsv), arr20(cc.OurPid))
+				if err != nil {
+					x.errs = err.Error()
+					return
+				}
+				x.got = append(x.got, ev{"k": "handshake", "reserved": ints(peerExt[:]), "ih": ints(ih[:]), "pid": ints(peerID[:])})
+			}()
+			select {
+			case <-x.conn.entered:
+			case <-x.done: // the call ended without writing
+			case <-time.After(60 * time.Second):
+				return errors.New("concurrent handshake: Accept neither wrote nor returned within 60 s")
+			}
+		case "f":
+			if !x.built {
+				return errors.New("schedule flushes a connection that was not started")
+			}
+			close(x.conn.release)
+			select {
+			case <-x.done:
+			case <-time.After(60 * time.Second):
+				return errors.New("concurrent handshake: Accept did not return within 60 s")
+			}
+		default:
+			return fmt.Errorf("schedule step %q", step.Op)
+		}
+	}
+	for i, x := range st {
+		cc := &c.Conns[i]
+		select {
+		case <-x.done:
+		default:
+			return errors.New("schedule left a connection unfinished")
+		}
+		ours := msg{K: "handshake", Reserved: cc.OurRsv, Ih: cc.Msgs[0].Ih, Pid: cc.OurPid}
+		got := x.got
+		if got == nil {
+			got = []ev{}
+		}
+		d.emit(ev{"op": "Conn", "fast": false})
+		f := noFrame()
+		if len(x.conn.wrote) > 0 {
+			f = frameDesc(x.conn.wrote, 0)
+		}
+		d.emit(ev{"op": "Send", "m": ours.describe(), "w": f, "sched": order, "conn": i + 1})
+		d.emit(ev{"op": "End", "frames": 1, "sent": 1, "leftover": 0, "upl": 0, "wirepl": 0})
+		d.emit(ev{"op": "Read", "hs": true, "chunk": "chs-" + cc.Chunk, "nbytes": len(x.conn.data), "exp": []ev{x.exp}, "got": got, "err": x.errs,
+			"touts": []ev{}, "ntout": 0, "ends": []int{len(x.conn.data)}})
+	}
 	return nil
 }
 
@@ -782,7 +1042,8 @@ func (d *drv) dialCase(c *tcase) error {
 	d.emit(ev{"op": "Conn", "fast": false})
 	d.emit(ev{"op": "Send", "m": ours.describe(), "w": frameDesc(r.got, 0)})
 	d.emit(ev{"op": "End", "frames": 1, "sent": 1, "leftover": 0, "upl": 0, "wirepl": 0})
-	d.emit(ev{"op": "Read", "hs": true, "chunk": "dial-" + c.Chunk, "nbytes": len(reply), "exp": []ev{theirs.describe()}, "got": got, "err": errs})
+	d.emit(ev{"op": "Read", "hs": true, "chunk": "dial-" + c.Chunk, "nbytes": len(reply), "exp": []ev{theirs.describe()}, "got": got, "err": errs,
+		"touts": []ev{}, "ntout": 0, "ends": []int{len(reply)}})
 	return nil
 }
 
@@ -843,6 +1104,8 @@ func main() {
 			err = d.readerCase(&c)
 		case "dial":
 			err = d.dialCase(&c)
+		case "chs":
+			err = d.concHandshakeCase(&c)
 		default:
 			err = fmt.Errorf("unknown case %q", c.Case)
 		}
